@@ -323,6 +323,31 @@ fn mem(o: &Opts, out: &mut Out, run: &mut u64) {
             exec_one(out, *run, i as u64, &mut vm, &sets, raw);
         }
     }
+    // the stack grown right up to a tiny heap: the bytes just below $hp are ordinary stack memory (stores are read back, pushes
+    // land there), one more byte of growth is refused
+    {
+        *run += 1;
+        let mut vm = match exec_session(out, *run, &w, &mut rng, 50_000_000) { Some(v) => v, None => return };
+        let pc0 = vm.registers()[RPC];
+        let big = 50_000_000u64;
+        let g = |v: Vec<(usize, u64)>| -> Vec<(usize, u64)> { let mut v = v; v.extend([(RPC, pc0), (RCGAS, big), (RGGAS, big)]); v };
+        let mut i = 0u64;
+        let mut step = |vm: &mut Vm<MemoryStorage>, sets: Vec<(usize, u64)>, raw: u32| { exec_one(out, *run, i, vm, &sets, raw); i += 1; };
+        step(&mut vm, g(vec![(0x13, 8)]), enc_rrr(0x26, 0x13, 0, 0) & 0xfffc0000);                       // ALOC 8
+        let gap = vm.registers()[RHP] - vm.registers()[RSP];
+        step(&mut vm, g(vec![(0x13, gap - 64)]), enc_rrr(0x93, 0x13, 0, 0) & 0xfffc0000);                // CFE gap - 64
+        let sp = vm.registers()[RSP];
+        step(&mut vm, g(vec![(0x11, sp - 16), (0x14, 0x1122_3344_5566_7788)]), enc_rri(0x5f, 0x11, 0x14, 0));   // SW just below $sp
+        step(&mut vm, g(vec![(0x11, sp - 16)]), enc_rri(0x5d, R, 0x11, 0));                               // LW reads it back
+        step(&mut vm, g(vec![(0x11, sp - 300), (0x14, 0xa5)]), enc_rri(0x5e, 0x11, 0x14, 0));              // SB a little lower
+        step(&mut vm, g(vec![(0x11, sp - 300)]), enc_rri(0x5c, R, 0x11, 0));                              // LB
+        step(&mut vm, g(vec![(0x18, 0xdead_beef), (0x19, 7)]), enc_i24(0x95, 0x300));                     // PSHL two registers (16 of the 64 bytes left)
+        let sp2 = vm.registers()[RSP];
+        step(&mut vm, g(vec![(0x11, sp2 - 16)]), enc_rri(0x5d, R, 0x11, 0));                              // LW the pushed word
+        step(&mut vm, g(vec![]), enc_i24(0x91, 48));                                                     // CFEI 48: exactly up to $hp
+        step(&mut vm, g(vec![]), enc_i24(0x91, 1));                                                      // one more byte: MemoryGrowthOverlap
+        step(&mut vm, g(vec![(0x13, 1)]), enc_rrr(0x26, 0x13, 0, 0) & 0xfffc0000);                       // ALOC 1: no room either
+    }
 }
 
 fn asm(v: Vec<Instruction>) -> Vec<u8> { v.into_iter().collect() }
